@@ -17,6 +17,7 @@ type phiSel struct {
 }
 
 type Env struct {
+	scopeAt    *ssa.BasicBlock // block whose scope decides which same-named local is meant (loop obligations)
 	fe         *FuncEnc
 	fr         *Frame // nil in callee/global mode
 	st         *State
@@ -406,8 +407,14 @@ func (e *Env) ident(name string) Term {
 				}
 			}
 		}
-		if v := fr.localByName(name, e.at); v != nil {
-			return fr.val(v)
+		scope := e.at
+		if scope == nil {
+			scope = e.scopeAt
+		}
+		if v := fr.localByName(name, scope); v != nil {
+			if _, defined := fr.vals[v]; defined || scope == e.at {
+				return fr.val(v)
+			}
 		}
 		if e.at != nil {
 			// not defined on every path to this point: use its (unique) definition elsewhere; clauses guard such uses
